@@ -193,6 +193,15 @@ func main() {
 			pkgDirs = keep
 		}
 	}
+	// mailbox contracts refer to spec functions exported by gbn's contract file
+	hasM, hasG := false, false
+	for _, d := range pkgDirs {
+		hasM = hasM || d == "mailbox"
+		hasG = hasG || d == "gbn"
+	}
+	if hasM && !hasG {
+		pkgDirs = append([]string{"gbn"}, pkgDirs...)
+	}
 	ctx, err := LoadCtx(*repo, pkgDirs)
 	if err != nil {
 		fmt.Println("ENGINE-ERROR:", err)
@@ -323,6 +332,7 @@ func instantiate(roots []*Term, target *Term) []*Term {
 		q        *Term
 		root     *Term
 		triggers map[int]bool // array term ids selected at the bound variable
+		pats     map[int][]*Term // array id -> index patterns (terms over the bound variable)
 	}
 	var qs []qinfo
 	for _, r := range roots {
@@ -334,7 +344,7 @@ func instantiate(roots []*Term, target *Term) []*Term {
 			}
 			seen[t.id] = true
 			if t.op == "forall" && instQuant[t.id] {
-				qi := qinfo{q: t, root: r, triggers: map[int]bool{}}
+				qi := qinfo{q: t, root: r, triggers: map[int]bool{}, pats: map[int][]*Term{}}
 				bv := t.args[0]
 				s2 := map[int]bool{}
 				var trig func(x *Term)
@@ -345,6 +355,7 @@ func instantiate(roots []*Term, target *Term) []*Term {
 					s2[x.id] = true
 					if x.op == "select" && mentions(x.args[1], bv) {
 						qi.triggers[x.args[0].id] = true
+						qi.pats[x.args[0].id] = append(qi.pats[x.args[0].id], x.args[1])
 					}
 					for _, a := range x.args {
 						trig(a)
@@ -426,10 +437,23 @@ func instantiate(roots []*Term, target *Term) []*Term {
 					cands[m1.id], cands[p1.id] = m1, p1
 				}
 			}
+			bv := qi.q.args[0]
 			for aid := range qi.triggers {
 				for _, ix := range reads[aid] {
-					if ix.sort == qi.q.args[0].sort {
-						cands[ix.id] = ix
+					for _, pat := range qi.pats[aid] {
+						// solve pat[bv := c] == ix for the simple patterns bv and X + bv
+						var c *Term
+						switch {
+						case pat == bv:
+							c = ix
+						case pat.op == "bvadd" && len(pat.args) == 2 && pat.args[1] == bv && !mentions(pat.args[0], bv):
+							c = BVSub(ix, pat.args[0])
+						case pat.op == "bvadd" && len(pat.args) == 2 && pat.args[0] == bv && !mentions(pat.args[1], bv):
+							c = BVSub(ix, pat.args[1])
+						}
+						if c != nil && c.sort == bv.sort && !hasBound(c) {
+							cands[c.id] = c
+						}
 					}
 				}
 			}
